@@ -62,17 +62,22 @@ fn craft(k: u64, n: u64, is_bool: bool, wide: bool) -> u64 {
 /// a uniform f32 in [0,1) that the code compares with running sums: the answer picks the bucket; the crafted word
 /// makes rand 0.9's `random::<f32>()` ((word >> 8) * 2^-24) land inside it
 fn draw_bucket(bounds: Vec<f32>) -> u64 {
+    // representatives: for every bucket [lo, hi) that contains a value v * 2^-24, the smallest such value (which is the
+    // threshold itself when that is representable: the boundary case of the comparison) and one from the middle
     let mut buckets: Vec<u32> = vec![];
     let mut lo = 0f32;
+    let scale = 16777216.0f32;
     for hi in bounds.into_iter().chain(std::iter::once(1.0f32)) {
         let hi = hi.min(1.0);
         if hi > lo {
-            // a representable value v * 2^-24 with lo <= value < hi, if there is one
-            let scale = 16777216.0f32;
+            let inside = |v: f32| v >= 0.0 && v < scale && v / scale >= lo && v / scale < hi;
+            let first = (lo * scale).ceil();
             let mid = (((lo + hi) / 2.0) * scale).floor();
-            let cands = [mid, (lo * scale).ceil()];
-            if let Some(v) = cands.iter().copied().find(|&v| v >= 0.0 && v < scale && v / scale >= lo && v / scale < hi) {
-                buckets.push(v as u32);
+            if inside(first) {
+                buckets.push(first as u32);
+            }
+            if inside(mid) && mid != first {
+                buckets.push(mid as u32);
             }
             lo = hi;
         }
@@ -232,8 +237,9 @@ pub fn calibrate() -> Result<u64, String> {
             checked += 1;
         }
     }
-    // f32 buckets: every bucket of a few width profiles is hit exactly
-    for widths in [[0.2f32, 0.2, 0.2, 0.2, 0.2], [1.0, 0.0, 0.0, 0.0, 0.0], [0.1, 0.15, 0.2, 0.25, 0.3], [0.1, 0.1, 0.1, 0.1, 0.1], [0.0, 0.5, 0.0, 0.0, 0.5]] {
+    // f32 buckets: the answers walk through the buckets in order, every reachable bucket is hit, and the first answer
+    // of a bucket whose lower threshold is representable is that threshold itself
+    for widths in [[0.2f32, 0.2, 0.2, 0.2, 0.2], [1.0, 0.0, 0.0, 0.0, 0.0], [0.1, 0.15, 0.2, 0.25, 0.3], [0.1, 0.1, 0.1, 0.1, 0.1], [0.0, 0.5, 0.0, 0.0, 0.5], [0.25, 0.0, 0.25, 0.25, 0.25]] {
         let mut bounds = vec![];
         let mut p0 = 0f32;
         for w in widths {
@@ -248,15 +254,33 @@ pub fn calibrate() -> Result<u64, String> {
                 lo = hi.min(1.0);
             }
         }
-        for (k, &want) in reachable.iter().enumerate() {
-            begin(&[k as u32], 4);
+        begin(&[], 4);
+        choice::announce_unit_f32(&widths);
+        let _: f32 = ScriptedRng.random();
+        let n = end().trace[0].1;
+        let mut hit: Vec<usize> = vec![];
+        let mut saw_threshold = false;
+        for k in 0..n {
+            begin(&[k], 4);
             choice::announce_unit_f32(&widths);
             let p: f32 = ScriptedRng.random();
             let got = bounds.iter().position(|&b| p < b).unwrap_or(bounds.len());
-            if got != want {
-                return Err(format!("f32 bucket {} of {:?} scripted, value {} fell into bucket {}", want, widths, p, got));
+            if hit.last().map(|&l| got < l).unwrap_or(false) {
+                return Err(format!("f32 answers of {:?} are not ordered by bucket", widths));
+            }
+            if bounds.contains(&p) {
+                saw_threshold = true;
+            }
+            if hit.last() != Some(&got) {
+                hit.push(got);
             }
             checked += 1;
+        }
+        if hit != reachable {
+            return Err(format!("f32 buckets of {:?}: hit {:?}, reachable {:?}", widths, hit, reachable));
+        }
+        if widths[0] == 0.25 && !saw_threshold {
+            return Err("the representable threshold 0.25 was not among the answers".into());
         }
     }
     for n in [10i32, 3, 2] {
